@@ -215,3 +215,42 @@ def register(reg):
       "which code runs inside `with indirect_actions()` (useractions/summary/docmodel) is observed through the "
       "recorded flag of each doc step, not modelled.",
       "Lean 4 invariant over step words + refinement check + independent classification oracle")
+
+  reg("C03", "proof",
+      "redo_after_undo_partial / redo_after_undo_engine_partial: for every list of doc actions accepted from a "
+      "well-formed, normal document, replaying the undo list in reverse and then the stored actions again yields a "
+      "document observationally equal to the post-bundle one (from C01's runActs_undo_partial, C02's "
+      "runActs_doc_eq_applyAll and the congruence applyAll_congr'); undo_then_redo_invariants. Partial: same side "
+      "conditions as C01 (undoExactRun); that the engine's recalculation after re-applying `stored` lands on the same "
+      "formula values is C05's fixpoint theorem. Tie: the undo and redo bundles of every history bundle are step words "
+      "replayed through the model. Search: undo then ApplyDocActions(stored) on the real engine, all tables compared.",
+      "as C01.", "Lean 4 theorems (undo/redo algebra) + step-word refinement check + direct oracle")
+
+  reg("C04", "proof",
+      "C04.rollback_restores / rollback_restores_after_failed_step: for every accepted word of doc steps (and a failing "
+      "last step), Engine._undo_to_checkpoint as modelled (`rollback`: replay undo[cp:] reversed as doc steps, truncate) "
+      "returns a document observationally equal to the one at the checkpoint and stored/direct/undo exactly as at the "
+      "checkpoint; rollback_lists_exact for any state; C08.rollback_schema_consistent. Fault model: fault enumeration on "
+      "the real engine - every bundle re-run with an exception injected at each doc-action entry, doc-action exit and "
+      "rebuild_usercode entry (first 10 sites, then every third) plus natural failures of a malformed stream; each "
+      "faulted run is replayed through the model (rollback must replay exactly undo[cp:] reversed; afterwards lists empty "
+      "and documents equal). Search: all tables equal the pre-call snapshot, schema consistent, following Calculate "
+      "emits nothing.",
+      "no fault site between two cell writes of one record action; faults swallowed inside formula evaluation do not make "
+      "the bundle raise; partial application inside a raising doc action is not modelled (model applies nothing for it "
+      "and the post-rollback documents are compared).",
+      "Lean 4 theorem (rollback algebra) + fault enumeration with step-word refinement + direct oracle")
+
+  reg("C08", "proof",
+      "GristModel/SchemaMeta.lean defines metaSchema (build_schema of _grist_Tables/_grist_Tables_column), userSchema and "
+      "SchemaConsistent with a proved-correct decision procedure (schemaConsistentB_correct). Proved: invariance under "
+      "observational equality (schemaConsistent_same_invariant), neutral_step(s)_consistent (record actions not touching "
+      "the seven schema-bearing fields), the paired steps pair_addColumn / pair_renameColumn / pair_removeColumn "
+      "(schema doc action + matching metadata record action in the engine's order preserve SchemaConsistent, MetaUnique, "
+      "WF, Normal), rollback_schema_consistent. Partial: pair_modifyColumn and the three table pairs are not proved; "
+      "that useractions.py always emits such pairs is validated per bundle, not proved. Tie: after every bundle the "
+      "Lean decision procedure evaluated on the replica (fed only stored actions) must agree with the engine-side oracle, "
+      "and the model document's column infos must equal Engine.schema. Search: build_schema(fetch_table(metadata)) vs "
+      "Engine.schema and the stray-column check after every successful bundle, every undo/redo and every rollback.",
+      "hypotheses of the pair theorems (MetaUnique, NoReverseRefTo, ParentIdIntTyped) are explicit.",
+      "Lean 4 theorems (schema/metadata pairing invariant) + per-bundle evaluation of the proved decision procedure + oracle")
